@@ -13,6 +13,11 @@ import (
 )
 
 // topIDs returns the identities of the object(s) an operation handed out.
+var (
+	retainMu sync.Mutex
+	retained []interface{}
+)
+
 func topIDs(v interface{}) []int64 {
 	if v == nil {
 		return nil
@@ -29,7 +34,14 @@ func topIDs(v interface{}) []int64 {
 		if rv.Kind() == reflect.Ptr && rv.IsNil() {
 			return nil
 		}
-		return []int64{o.RecView().Core.Serial}
+		if ser := o.RecView().Core.Serial; ser != 0 || rv.Kind() != reflect.Ptr {
+			return []int64{ser}
+		}
+		// a pointer literal (`value: &pkg.Obj{}`) carries no serial: its identity is its address, retained so that it is never reused
+		retainMu.Lock()
+		retained = append(retained, v)
+		retainMu.Unlock()
+		return []int64{int64(rv.Pointer())}
 	}
 	if s, ok := v.([]interface{}); ok {
 		var out []int64
